@@ -1,5 +1,7 @@
 """C14 - a decoded packet depends only on the bytes inside its announced length."""
 import collections
+import json
+import os
 
 import vlib
 import codec_common as cc
@@ -49,6 +51,10 @@ def run(chk):
     import os
     first = list(range(0, 13)) + list(range(250, 259)) + ([300, 1000, 65535] if thorough else [300])
     behs = [{"lens": [a, b, 2], "cut": 10 ** 9, "reads": []} for a in first for b in (0, 1, 3, 17, 255)]
+    # ... and when the first packet arrives in pieces while the following ones are already waiting behind it
+    for a in (2, 4, 255, 256, 300, 1100, 2100):
+        for piece in (1, 2, 7, 100, 1024):
+            behs.append({"lens": [a, 1, 3], "cut": 10 ** 9, "reads": [[0, piece]] * (a // piece + 12)})
     bpath, opath = os.path.join(wd, "conn.ndjson"), os.path.join(wd, "conn.out.ndjson")
     vlib.write_ndjson(bpath, behs)
     vlib.harness_run(binary, ["transport-replay", bpath, opath])
@@ -59,5 +65,63 @@ def run(chk):
                           "packets with bodies of %s bytes waiting on a connection: read back as %s%s - bytes behind a packet were taken or changed" % (
                               b["lens"], o["delivered"], "" if o["same"] else " with different content"), {"behaviour": b, "observed": o})
     chk.cov["connection_level_cases"] = len(behs)
+    # ... and for the reply parsers: what follows the packet decides neither which variant a reply is nor what it contains.  For every
+    # reply enum, every packet type that owns one of its control fields (reference-encoded boundary values), alone and with a suffix.
+    import re
+    import seq_common
+    _, rp = seq_common.export_tables(wd)
+    rep = json.load(open(rp))
+    src = open(os.path.join(vlib.SPEC, "codec", "ZvtLayout.tla")).read()
+    cmdtab = {n: (int(a), int(b)) for n, a, b in re.findall(r"(\w+) \|-> <<(\d+), (\d+)>>", re.search(r"Command == \[(.*?)\]\n", src, re.S).group(1))}
+    vals = {}
+    for c in cc.gen_values(chk, big=False):
+        if c["ty"] in cmdtab and c.get("cls") == "canon" and len(vals.setdefault(c["ty"], [])) < (12 if thorough else 5):
+            vals[c["ty"]].append(c["in"])
+    suffixes = [[], [0], [255], [0x1f], [0x06, 0x0f, 0x00], [0x80, 0x00, 0x00, 0x04, 0x0f, 0x02, 0x27, 0x00]]
+    pcases = []
+    for enum, variants in sorted(rep["replies"].items()):
+        cfs = {cmdtab[v["ty"]] for v in variants if v["ty"] in cmdtab}
+        for ty, frames in sorted(vals.items()):
+            if cmdtab[ty] in cfs:
+                for f in frames:
+                    for sfx in suffixes:
+                        pcases.append({"enum": enum, "ty": ty, "in": f + sfx, "base": f, "suffix": sfx})
+    pin, pout = os.path.join(wd, "parse.cases.ndjson"), os.path.join(wd, "parse.out.ndjson")
+    vlib.write_ndjson(pin, pcases)
+    vlib.harness_run(binary, ["parse-run", pin, pout])
+    precs = vlib.read_ndjson(pout)
+    # (a) against the reference parser, record by record (TLC); (b) with a suffix = without
+    plines = open(pout).read().splitlines()
+    shards = [(k, plines[k:k + 3000]) for k in range(0, len(plines), 3000)]
+
+    def pjudge(sh):
+        k, ls = sh
+        sp = os.path.join(wd, "parse.s%d.ndjson" % k)
+        open(sp, "w").write("\n".join(ls) + "\n")
+        return k, vlib.tlc("sequence/TraceParse.tla", workers=1, env={"PARSE_TRACE": sp, "PARSE_MODE": "run"}, xmx="3g", tag="c14p%d" % k)
+    for k, r in vlib.parallel(pjudge, shards, 8):
+        vlib.tlc_must_pass(r, "TraceParse")
+        chk.cov["states"] += r.distinct
+        chk.cov["transitions"] += r.generated
+        for m in re.finditer(r'^<<"FLAGS", (\d+), (".*")>>$', r.out, re.M):
+            rec = precs[k + int(m.group(1)) - 1]
+            flags = set(json.loads(json.loads(m.group(2))))
+            if rec["suffix"] and flags & {"variant", "content", "ref-ok-impl-err", "ref-err-impl-ok", "total"}:
+                chk.violation("parse:%s:%s" % (rec["enum"], sorted(flags)[0]), "%s: a %s packet followed by %s is not parsed as the packet alone is (%s)" % (
+                    rec["enum"], rec["ty"], cc.hexs(rec["suffix"]), sorted(flags)), {k2: v for k2, v in rec.items() if k2 != "val"})
+            elif flags:
+                chk.notes.append("reply parser differs from the reference without a suffix (C15's subject): %s %s %s" % (rec["enum"], rec["ty"], sorted(flags)))
+    base = {}
+    for rec in precs:
+        key = (rec["enum"], json.dumps(rec["base"]))
+        if not rec["suffix"]:
+            base[key] = (rec["st"], rec["variant"], json.dumps(rec["val"], sort_keys=True))
+    for rec in precs:
+        if rec["suffix"]:
+            b = base[(rec["enum"], json.dumps(rec["base"]))]
+            if (rec["st"], rec["variant"], json.dumps(rec["val"], sort_keys=True)) != b:
+                chk.violation("parse:%s:suffix" % rec["enum"], "%s: a %s packet followed by %s parses as %s/%s, alone as %s/%s" % (
+                    rec["enum"], rec["ty"], cc.hexs(rec["suffix"]), rec["st"], rec["variant"], b[0], b[1]), {k2: v for k2, v in rec.items() if k2 != "val"})
+    chk.cov["reply_parser_suffix_cases"] = len(pcases)
     chk.assumptions += ["bare container types have no announced length of their own; they are exercised wrapped as nested fields",
                         "base values are canonical (fixed points of the reference codec)"]
